@@ -32,6 +32,7 @@ BOUNDED = {"KSI_snprintf": 1, "KSI_vsnprintf": 1, "snprintf": 1, "vsnprintf": 1,
 def run(prog, chk):
     tostring_table(prog, chk)
     rendering_is_written(prog, chk)
+    asn1_value_reads(prog, chk)
     _run(prog, chk)
 
 
@@ -367,3 +368,67 @@ def rendering_is_written(prog, chk):
                "formats memory this function never initialised" % (buf, fn.elem_line(*hit)), loc=fn.loc(fn.elem_line(*hit)) if hit else fn.loc(), fn=fn)
     if n < 8:
         raise AnalysisBroken("C12.strinit: only %d rendering functions found" % n)
+
+
+ASN1_VALIDATORS = {"ASN1_TIME_check", "ASN1_UTCTIME_check", "ASN1_GENERALIZEDTIME_check"}
+
+
+def asn1_value_reads(prog, chk):
+    """OpenSSL hands out decoded ASN.1 strings as (data, length) and its decoder does not check what a time value contains.  Every
+    function of the PKI unit that reads characters of X->data at positions of its own choosing (an index expression, not a call that
+    is given the length) must be covered: either it compares X->length itself, or every call of it is reached only through the
+    non-zero arm of a validator (ASN1_TIME_check and its kin) applied to the same object, on every path."""
+    from ksirules.flow import must_pass, g_true, g_cmp, g_any
+    from ksirules.model import walk, is_var
+    chk.rule("C12.asn1read", "characters of a decoded ASN.1 value are read at fixed positions only after its length (or its well-formedness) "
+                             "was checked on every path", floor=1)
+    n = 0
+    for fn in sorted(prog.all_functions(), key=lambda f: (f.unit, f.line)):
+        if not fn.unit.startswith("pkitruststore"):
+            continue
+        # pointers that hold X->data of an ASN1 object
+        holders = {}
+        for b, i, m in fn.nodes():
+            if m.get("k") == "asg" and strip(m["l"]).get("k") == "var":
+                r = fn.resolve(strip(m["r"]))
+                while isinstance(r, dict) and r.get("k") in ("cast", "paren"):
+                    r = fn.resolve(strip(r["e"]))
+                if isinstance(r, dict) and r.get("k") == "mem" and r.get("f") == "data" and strip(r["b"]).get("k") == "var" and \
+                        "ASN1_" in (strip(r["b"]).get("t") or ""):
+                    holders[strip(m["l"])["n"]] = strip(r["b"])["n"]
+        reads = []
+        for b, i, m in fn.nodes():
+            if m.get("k") == "idx":
+                base = fn.resolve(strip(m["b"]))
+                while isinstance(base, dict) and base.get("k") in ("cast", "paren"):
+                    base = fn.resolve(strip(base["e"]))
+                if isinstance(base, dict) and base.get("k") == "var" and base["n"] in holders:
+                    reads.append((b, i, holders[base["n"]]))
+        if not reads:
+            continue
+        for obj in sorted({r[2] for r in reads}):
+            n += 1
+            own = [1 for b, i, m in fn.nodes() if m.get("k") == "mem" and m.get("f") == "length" and is_var(m.get("b"), obj)]
+            if own:
+                chk.ob("C12.asn1read", "%s:%s" % (fn.name, obj), True, "%s->length is compared in the function itself" % obj, loc=fn.loc(), fn=fn)
+                continue
+            if obj not in [p["n"] for p in fn.params]:
+                chk.ob("C12.asn1read", "%s:%s" % (fn.name, obj), False, "characters of %s->data are read at fixed positions and %s->length is never looked at" % (obj, obj),
+                       loc=fn.loc(fn.elem_line(reads[0][0], reads[0][1])), fn=fn)
+                continue
+            k = [p["n"] for p in fn.params].index(obj)
+            sites = prog.callers().get(fn.name, [])
+            bad = []
+            for (g, gb, gi, call) in sites:
+                arg = lvalue_key(g.resolve(strip(call["a"][k])), g)
+                guard = g_true(ASN1_VALIDATORS, argcheck=lambda f_, c, loc, arg=arg, g=g: bool(c["a"]) and lvalue_key(g.resolve(strip(c["a"][0])), g) == arg)
+                w = must_pass(g, [gb], guard)
+                if w is not None:
+                    bad.append("%s (%s)" % (g.name, g.loc(g.elem_line(gb, gi))))
+            chk.ob("C12.asn1read", "%s:%s" % (fn.name, obj), bool(sites) and not bad,
+                   ("every call (%d) is reached only after a validator accepted the value" % len(sites)) if sites and not bad else
+                   "%d characters of %s->data are read at fixed positions, %s->length is not looked at, and the call in %s is reachable without a "
+                   "validator having accepted the value: a shorter value makes the reads run behind its block"
+                   % (len([r for r in reads if r[2] == obj]), obj, obj, ", ".join(bad) or "(no caller)"), loc=fn.loc(fn.elem_line(reads[0][0], reads[0][1])), fn=fn)
+    if n < 1:
+        raise AnalysisBroken("C12.asn1read: no function reading characters of an ASN.1 value found (ASN1_GetTimeT expected)")
